@@ -251,6 +251,7 @@ def c19(tier, seed):
     ck.require("codec_probe.lib_rejected")
     ck.require("sim.hostile_runs", 100)
     ck.require("sim.chunking_comparisons", 50)
+    ck.require("sim.recovery_publishes_acknowledged", 500)
     return ck.finish()
 
 
